@@ -1546,11 +1546,77 @@ var _ = crypto.Keccak256
 
 func init() { scenarios["replace"] = scnReplace }
 
+// replacePreamble: whatever the seed -- originals over (who the sender field names) x (plain body / burn-shaped body) x
+// (whom the burn body names as depositor) x (source domain Noble / foreign), each honestly attested, each put through
+// BOTH replace handlers, the new-field variants (caller: zero, set, empty, short; recipient: set, zero, empty, long enough
+// to spill into the amount and into the depositor, short) taken in turn.
+func (g *Gen) replacePreamble() {
+	callers := func(i int) []byte {
+		return [][]byte{make([]byte, 32), g.rand32(), {}, g.randBytes(31), g.randBytes(33)}[i%5]
+	}
+	rcps := func(i int) []byte {
+		return [][]byte{g.rand32(), make([]byte, 32), {}, g.randBytes(33), append(g.rand32(), big.NewInt(1000000000).FillBytes(make([]byte, 32))...),
+			g.randBytes(96), g.randBytes(31)}[i%7]
+	}
+	n := 0
+	for senderKind := 0; senderKind < 5; senderKind++ {
+		for _, burnShaped := range []bool{false, true} {
+			for _, selfDep := range []bool{true, false} {
+				for _, src := range []uint32{4, 0} {
+					if !burnShaped && !selfDep {
+						continue
+					}
+					sub := n % len(g.acct)
+					from := g.acct[sub]
+					var sender []byte
+					switch senderKind {
+					case 0:
+						sender = pad32(g.acctRaw[sub])
+					case 1:
+						sender = pad32(g.acctRaw[(sub+1)%len(g.acct)])
+					case 2:
+						sender = pad32(g.acctRaw[sub])
+						g.rng.Read(sender[:12])
+						sender[0] |= 1
+					case 3:
+						sender = append([]byte{}, types.PaddedModuleAddress...)
+						g.rng.Read(sender[:12])
+						sender[0] |= 1
+					default:
+						sender = types.PaddedModuleAddress
+					}
+					body := g.randBytes(1 + n%40)
+					if burnShaped {
+						dep := pad32(g.acctRaw[sub])
+						if !selfDep {
+							dep = pad32(g.acctRaw[(sub+2)%len(g.acct)])
+						}
+						body = buildBurnBody(0, crypto.Keccak256([]byte(mintDenom)), g.rand32(), big.NewInt(int64(100+n)), dep)
+					}
+					orig := buildMessage(0, src, g.domain(), uint64(n), sender, g.rand32(), g.rand32(), body)
+					att := g.attest(orig, attOpts{})
+					ecr := ecrEntries(orig, att)
+					g.tx("ReplaceMessage", newKV().set("from", hs(from)).set("message", hx(orig)).set("attestation", hx(att)).
+						set("newBody", hx(g.randBytes(n%50))).set("newCaller", hx(callers(n))).set("ecr", ecr))
+					g.tx("ReplaceDepositForBurn", newKV().set("from", hs(from)).set("message", hx(orig)).set("attestation", hx(att)).
+						set("newCaller", hx(callers(n/2))).set("newMintRecipient", hx(rcps(n))).set("ecr", ecr))
+					n++
+				}
+			}
+		}
+	}
+}
+
 func scnReplace(g *Gen, budget int, arg string) {
+	first := true
 	for g.nOps < budget {
 		g.initStandard(3, 2)
 		for i := 0; i < 4; i++ {
 			g.validFlow(i)
+		}
+		if first {
+			g.replacePreamble()
+			first = false
 		}
 		for k := 0; k < 60 && g.nOps < budget; k++ {
 			sub := g.pick(len(g.acct))
